@@ -85,6 +85,26 @@ Definition all_removals (fast : bool) (Ls : list link) (m : mol) : list (Z * (li
 Definition designated (m : mol) (rems : list (Z * (list Z * rinter))) (t : Z) (j : inter) : bool :=
   existsb (fun tr => Z.eqb (fst tr) t && removal_matches m j (fst (snd tr)) (snd (snd tr))) rems.
 
+(* the same with the position of the link in the list and of the placement among the link's placements: a removal is
+   carried out before the interactions of the same link on the same placement are stated (do_links.py l.308-318), so it
+   can only take away what was there before: originals, what earlier links stated, what the same link stated on another
+   placement (the order of the placements of one link is not modelled) *)
+Fixpoint number {A} (n : nat) (l : list A) : list (nat * A) := match l with [] => [] | x :: r => (n, x) :: number (S n) r end.
+Definition placed (fast : bool) (L : link) (m : mol) := number 0 (if fast then matches_fast L m else matches L m).
+Definition adds_at (fast : bool) (Ls : list link) (m : mol) : list (nat * nat * (Z * inter)) :=
+  flat_map (fun kL => flat_map (fun jp => map (fun ti => (fst kL, fst jp, (fst ti, inst (snd jp) (snd ti)))) (linters (snd kL)))
+                               (placed fast (snd kL) m)) (number 0 Ls).
+Definition removals_at (fast : bool) (Ls : list link) (m : mol) : list (nat * nat * (Z * (list Z * rinter))) :=
+  flat_map (fun kL => flat_map (fun jp => map (fun tr => (fst kL, fst jp, (fst tr, (map_atoms (snd jp) (r_atoms (snd tr)), snd tr)))) (lremoved (snd kL)))
+                               (placed fast (snd kL) m)) (number 0 Ls).
+Definition designated_after (m : mol) (rems : list (nat * nat * (Z * (list Z * rinter)))) (k j : nat) (t : Z) (w : inter) : bool :=
+  existsb (fun r => let '(k', j', tr) := r in
+                    (Nat.ltb k k' || (Nat.eqb k k' && negb (Nat.eqb j j')))
+                    && Z.eqb (fst tr) t && removal_matches m w (fst (snd tr)) (snd (snd tr))) rems.
+Definition last_at (adds : list (nat * nat * (Z * inter))) (t : Z) (i : inter) : option (nat * nat * inter) :=
+  match filter (fun a => Z.eqb (fst (snd a)) t && same_id (snd (snd a)) i) (List.rev adds) with
+  | a :: _ => Some (fst (fst a), snd (fst a), snd (snd a)) | [] => None end.
+
 (* the last added interaction with the identity of i among those of type t *)
 Definition last_with (adds : list (Z * inter)) (t : Z) (i : inter) : option inter :=
   match filter (fun ti => Z.eqb (fst ti) t && same_id (snd ti) i) (List.rev adds) with
@@ -105,13 +125,15 @@ Definition prop (k : case) : bool :=
         forallb (fun tl => forallb (fun j =>
             existsb (inter_eqb j) (iget (inters m) (fst tl))
             || existsb (fun ti => Z.eqb (fst ti) (fst tl) && inter_eqb j (snd ti)) adds) (snd tl)) ii
-        (* complete, with later overriding earlier (interactions some removal designates are left to the correspondence) *)
-        && forallb (fun ti =>
-             match last_with adds (fst ti) (snd ti) with
-             | Some w => designated m rems (fst ti) w
+        (* complete, with later overriding earlier (interactions that a removal carried out LATER designates are left to the correspondence) *)
+        && (let adds' := adds_at fast Ls m in
+            let rems' := removals_at fast Ls m in
+            forallb (fun ti =>
+             match last_at adds' (fst ti) (snd ti) with
+             | Some (k, j, w) => designated_after m rems' k j (fst ti) w
                          || ((1 =? Z.of_nat (List.length (filter (fun j => same_id j w) (iget ii (fst ti)))))
                              && existsb (inter_eqb w) (iget ii (fst ti)))
-             | None => false end) adds
+             | None => false end) adds)
         (* originals that nothing designates and nothing overrides stay *)
         && forallb (fun tl => forallb (fun j =>
              existsb (fun ti => Z.eqb (fst ti) (fst tl) && same_id (snd ti) j) adds
